@@ -252,9 +252,8 @@ Definition px_valid (ig : option Z) (b : px_batch) : bool :=
   let v := List.length (hd [] (px_rows b)) in
   Nat.eqb (List.length (px_rows b)) (List.length (px_tgt b)) && nonnil (px_tgt b)
   && rows_ok v (px_rows b)
-  && forallb (fun t => ignored ig t || (Z.leb 0 t && Z.ltb t (Z.of_nat v))) (px_tgt b)
-  (* _perplexity_input_check: `if ignore_index:` filters, then torch.max of an empty tensor raises *)
-  && (negb (truthy ig) || existsb (fun t => negb (ignored ig t)) (px_tgt b)).
+  && forallb (fun t => ignored ig t || (Z.leb 0 t && Z.ltb t (Z.of_nat v))) (px_tgt b).
+(* _perplexity_input_check: `if ignore_index:` filters; since /repo 54e61cf an all-ignored batch is accepted *)
 Definition px_add (a b : px_st) : px_st := (fadd (fst a) (fst b), snd a + snd b).
 Definition px_value (s : px_st) : val := rexp (rdiv (form_val (fst s)) (vq (snd s))).
 Definition px_cmp (s : px_st) : val := if qeq (snd s) 0 then VL [] else px_value s.
